@@ -168,7 +168,7 @@ Print Assumptions eventually_processed_nonvacuous.
 (* those of QueueLockP (same names as QueueLock, shadowed inside the   *)
 (* module). Any number of goroutines, any mix, any schedule.           *)
 (* ------------------------------------------------------------------ *)
-From AMV Require Conc.QueueLockP Proofs.C04PProofs.
+From AMV Require Conc.QueueLockP Proofs.C04PProofs Proofs.C04PProofs2.
 Module P.
 Import AMV.Conc.QueueLockP.
 
@@ -221,4 +221,90 @@ Theorem no_strand_pending_same_schedule_ok :
    map t_res (ths c2) = [RExecuted; RQueued 0] /\ no_strand_ok c2 = true).
 Proof. exact C04PProofs.no_strand_pending_same_schedule_ok_lemma. Qed.
 Print Assumptions no_strand_pending_same_schedule_ok.
+
+(* ---- none lost / none twice, truthful results, all executed at quiescence ---- *)
+
+
+(* (a) none lost, none twice — whatever the re-check mode *)
+Theorem none_lost_none_twice_p :
+  forall (mode : rmode) (muts : list (nat * list nat * bool)) (sched : list nat),
+    let c := exec_sched mode (init_cfg muts) sched in
+    (* every caller (check or not) that passed the enqueue has its mutation queued or executed *)
+    (forall t, In t (ths c) -> t_pc t <> PEnq -> In (t_mut t) (enqueued c)) /\
+    (* the handlers' mutations of an executed mutation are queued or executed *)
+    (forall m, In m (map fst (executed (sh c))) ->
+       forall n, In n (nested_for (sh c) m) -> In n (enqueued c)) /\
+    (* with pairwise distinct ids: nothing twice, and nested per the table *)
+    (Spec.C04.nodupb (C04PProofs2.ids_of muts) = true ->
+       Spec.C04.nodupb (enqueued c) = true /\
+       (forall m ns b, In (m, ns, b) muts -> In m (map fst (executed (sh c))) ->
+          forall n, In n ns -> In n (enqueued c))).
+Proof. exact C04PProofs2.none_lost_none_twice_p_lemma. Qed.
+Print Assumptions none_lost_none_twice_p.
+
+(* thread 1 is a check thread: its mutation is prepended and executed before
+   the nested mutations 10, 11 that were queued earlier *)
+Example none_lost_none_twice_p_nonvacuous :
+  let muts := [(0, [10; 11], false); (1, [], true); (2, [], false)] in
+  let c := exec_sched RmLen (init_cfg muts) [0;0;0;0;0; 1;1;1; 2;2;2; 0;0] in
+  Spec.C04.nodupb (C04PProofs2.ids_of muts) = true /\
+  map fst (executed (sh c)) = [1; 0] /\ queue (sh c) = [(10, 3); (11, 4); (2, 5)] /\
+  enqueued c = [0; 1; 10; 11; 2] /\ Spec.C04.nodupb (enqueued c) = true.
+Proof. vm_compute. repeat split; reflexivity. Qed.
+Print Assumptions none_lost_none_twice_p_nonvacuous.
+
+(* (b) a returned queue tick is the tick of the caller's own mutation (and the
+   caller has returned); Executed is only reported if a transition ran *)
+Theorem results_truthful_p :
+  forall (mode : rmode) (muts : list (nat * list nat * bool)) (sched : list nat) (t : thread),
+    In t (ths (exec_sched mode (init_cfg muts) sched)) ->
+    (forall k, t_res t = RQueued k -> k = t_tick t /\ t_pc t = PDone) /\
+    (t_res t = RExecuted -> t_first t = true).
+Proof. exact C04PProofs2.results_truthful_p_lemma. Qed.
+Print Assumptions results_truthful_p.
+
+(* (b') a check thread carries no tick: its Queued result is the bare Queued *)
+Theorem check_queued_bare_p :
+  forall (mode : rmode) (muts : list (nat * list nat * bool)) (sched : list nat) (t : thread),
+    In t (ths (exec_sched mode (init_cfg muts) sched)) ->
+    t_chk t = true -> forall k, t_res t = RQueued k -> k = 0.
+Proof. exact C04PProofs2.check_queued_bare_lemma. Qed.
+Print Assumptions check_queued_bare_p.
+
+Example results_truthful_p_nonvacuous :
+  let c := exec_sched RmLen (init_cfg [(0, [10; 11], false); (1, [], true); (2, [], false)])
+             [0;0;0;0;0; 1;1;1; 2;2;2; 0;0] in
+  map t_res (ths c) = [RNone; RQueued 0; RQueued 5] /\
+  map t_tick (ths c) = [2; 0; 5] /\ map t_first (ths c) = [true; false; false] /\
+  map t_chk (ths c) = [false; true; false] /\ map t_pc (ths c) = [PLoop; PDone; PDone].
+Proof. vm_compute. repeat split; reflexivity. Qed.
+Print Assumptions results_truthful_p_nonvacuous.
+
+(* (c) with the queue-length re-check (the code), at quiescence every thread's
+   own mutation (check threads included) and, with distinct ids, every nested
+   mutation has been executed, exactly once *)
+Theorem all_done_all_executed_p :
+  forall (muts : list (nat * list nat * bool)) (sched : list nat),
+    let c := exec_sched RmLen (init_cfg muts) sched in
+    all_done c = true ->
+    (forall t, In t (ths c) -> In (t_mut t) (map fst (executed (sh c)))) /\
+    (forall m ns b, In (m, ns, b) muts -> In m (map fst (executed (sh c)))) /\
+    (Spec.C04.nodupb (C04PProofs2.ids_of muts) = true ->
+       Spec.C04.nodupb (map fst (executed (sh c))) = true /\
+       (forall m ns b, In (m, ns, b) muts ->
+          forall n, In n ns -> In n (map fst (executed (sh c))))).
+Proof. exact C04PProofs2.all_done_all_executed_p_lemma. Qed.
+Print Assumptions all_done_all_executed_p.
+
+(* three threads (thread 1 a check thread), nested mutations: all return, five
+   mutations executed, the prepended check mutation ahead of the queued ones *)
+Example all_done_all_executed_p_nonvacuous :
+  let muts := [(0, [10; 11], false); (1, [], true); (2, [], false)] in
+  let sched := [0;0;0;0;0; 1;1;1; 2;2;2; 0;0;0;0;0;0;0;0; 0;0;0;0;0] in
+  let c := exec_sched RmLen (init_cfg muts) sched in
+  all_done c = true /\ Spec.C04.nodupb (C04PProofs2.ids_of muts) = true /\
+  map fst (rev (executed (sh c))) = [0; 1; 10; 11; 2] /\ queue (sh c) = [] /\
+  map t_res (ths c) = [RExecuted; RQueued 0; RQueued 5].
+Proof. vm_compute. repeat split; reflexivity. Qed.
+Print Assumptions all_done_all_executed_p_nonvacuous.
 End P.
